@@ -387,5 +387,26 @@ func c11Run(c M) M {
 		return o
 	}
 	o["after"] = after
+	// the same text once more in the same process: what a rewrite yields must not depend on the rewrites made before it
+	var st2 influxql.Statement
+	if p := guard(func() { st2, err = influxql.ParseStatement(text) }); p != "" || err != nil {
+		o["panic2"] = "parse: " + p + errStr(err)
+		return o
+	}
+	if sel2, ok := st2.(*influxql.SelectStatement); ok && sel2.Condition != nil {
+		if p := guard(func() { sel2.RewriteRegexConditions() }); p != "" {
+			o["panic2"] = "RewriteRegexConditions: " + p
+			return o
+		}
+		if sel2.Condition != nil {
+			o["cond2"] = sel2.Condition.String()
+			after2, p := eval(sel2.Condition)
+			if p != "" {
+				o["panic2"] = "eval: " + p
+				return o
+			}
+			o["after2"] = after2
+		}
+	}
 	return o
 }
